@@ -74,6 +74,20 @@ def gen_universe_desc(rng, features=None):
             sub["meta"] = {"namespace": bm["namespace"]}
         classes.append(sub)
         names.append(base + "Ext")
+        if rng.random() < 0.5:
+            # two levels below the declared type: xsi:type lookup has to walk the whole MRO
+            sub2 = {
+                "name": base + "Ext2",
+                "bases": [base + "Ext"],
+                "fields": [
+                    {"name": "extra2", "type": {"opt": "str"},
+                     "metadata": {"type": rng.choice(["Element", "Attribute"])}, "default": {"value": None}}
+                ],
+            }
+            if "meta" in sub:
+                sub2["meta"] = dict(sub["meta"])
+            classes.append(sub2)
+            names.append(base + "Ext2")
     n_mid = rng.randint(0, 1)
     for i in range(n_mid):
         classes.append(gen_class(rng, f"Mid{i}", list(names), feats))
@@ -287,9 +301,15 @@ def single_parent_namespace(desc):
     parent namespace (so that the first-build-wins cache of XmlContext cannot matter:
     that cache is the subject of C14, not of the binding-layer properties)."""
     by = {c["name"]: c for c in desc["classes"]}
+    def ancestors(n):
+        out = []
+        for b in by[n].get("bases", []):
+            out += [b] + ancestors(b)
+        return out
+
     subs = {}
     for c in desc["classes"]:
-        for b in c.get("bases", []):
+        for b in ancestors(c["name"]):
             subs.setdefault(b, []).append(c["name"])
     seen = {}
     todo = [("Root", None)]
@@ -304,7 +324,7 @@ def single_parent_namespace(desc):
         seen[(name, pns)] = True
         seen[name] = pns
         eff = own if own is not None else pns
-        fields_owner = [name] + [b for b in by[name].get("bases", [])]
+        fields_owner = [name] + ancestors(name)
         for owner in fields_owner:
             for r in refs_of(by[owner]):
                 for k in [r] + subs.get(r, []):
@@ -345,7 +365,12 @@ def all_fields(uni, cname):
 
 
 def subclasses(uni, cname):
-    return [c["name"] for c in uni.desc["classes"] if cname in c.get("bases", [])]
+    """all descendants (any depth)"""
+    direct = [c["name"] for c in uni.desc["classes"] if cname in c.get("bases", [])]
+    out = []
+    for d in direct:
+        out += [d] + subclasses(uni, d)
+    return out
 
 
 def gen_any(rng, depth=0):
